@@ -226,6 +226,24 @@ func (m *C14) PostTx(w *chain.World, ctx sdk.Context, tx *chain.TxRecord, succes
 		if !post.elys.Equal(pre.elys) {
 			m.viol(w, "C14.cancel_pays_nothing", tx.Signer.Name, op, fmt.Sprintf("uelys %s -> %s in a cancel", pre.elys, post.elys))
 		}
+		// a cancel only takes unreleased amounts away: the entries that remain keep their own start,
+		// length, denom and released counter (they are a subsequence of the entries before)
+		j := 0
+		for _, e := range post.entries {
+			found := false
+			for j < len(pre.entries) {
+				p := pre.entries[j]
+				j++
+				if p.Start == e.Start && p.N == e.N && p.Denom == e.Denom && p.Claimed.Equal(e.Claimed) && e.Total.LTE(p.Total) {
+					found = true
+					break
+				}
+			}
+			if !found {
+				m.viol(w, "C14.cancel_keeps_schedules", tx.Signer.Name, op, fmt.Sprintf("height %d: cancel %s changed the schedule of a remaining entry: entries %s -> %s", h, x.Amount, pre, post))
+				break
+			}
+		}
 	case *commitmenttypes.MsgVestNow:
 		vi, _ := w.App.CommitmentKeeper.GetVestingInfo(ctx, x.Denom)
 		if vi != nil && vi.VestNowFactor.IsPositive() {
